@@ -11,7 +11,7 @@ import os
 import shutil
 import tempfile
 
-from sim import core
+from sim import core, tasks
 from sim.runner import Check
 from sim.streams import SimFile
 
@@ -108,7 +108,9 @@ class C20(Check):
             'last_bytes (n around the size; seek errors), write_to_tempfile '
             '(nested missing directories, prefix/suffix, pre-existing '
             'files, write/close/mkstemp errors, descriptor accounting), '
-            'ensure_tree / delete_if_exists on pre-existing state. distinct '
+            'ensure_tree / delete_if_exists on pre-existing state; 2-3 '
+            'checksum / last_bytes calls in flight at once, interleaved at '
+            'every simulated read by the seeded scheduler. distinct '
             '= distinct (function, parameter class, fault kind/errno, '
             'file-system state class)')
     COMPONENTS = {
@@ -124,6 +126,7 @@ class C20(Check):
                    'delete_if_exists default remove (bound at import) is '
                    'exercised with real files only']
     FAULT_KINDS = ('short_read', 'read_error', 'seek_error',
+                   'task_switch_at_io',
                    'errno_on_makedirs', 'errno_on_remove', 'errno_on_write',
                    'errno_on_close', 'errno_on_mkstemp')
     PROBES = ('final_short_chunk', 'exact_multiple', 'empty_file',
@@ -154,8 +157,37 @@ class C20(Check):
         rng = st('case')
         fn = core.weighted(rng, [('checksum', 5), ('last_bytes', 3),
                                  ('tempfile', 3), ('ensure_tree', 1),
-                                 ('delete_if_exists', 1)])
+                                 ('delete_if_exists', 1), ('concurrent', 2)])
         c = {'fn': fn, 'sweep': False}
+        if fn == 'concurrent':
+            subs = []
+            for _ in range(rng.randint(2, 3)):
+                if rng.random() < 0.75:
+                    ch = rng.choice((1, 2, 7, 64, 4096, 65536))
+                    size = rng.choice((0, 1, ch - 1, ch, ch + 1, 3 * ch,
+                                       2 * ch + 5))
+                    if ch == 1:
+                        size = min(size, 50)
+                    short = [rng.choice((0, 1, 3))
+                             for _ in range(rng.randint(1, 3))] \
+                        if rng.random() < 0.3 else []
+                    if short:
+                        # every read is a scheduler step: keep it bounded
+                        size = min(size, 600)
+                    subs.append({'fn': 'checksum', 'chunk': ch,
+                                 'content': [rng.randrange(1 << 30),
+                                             max(0, size)],
+                                 'alg': rng.choice(ALGS), 'short': short})
+                else:
+                    size = rng.choice((0, 1, 10, 100, 5000))
+                    subs.append({'fn': 'last_bytes',
+                                 'content': [rng.randrange(1 << 30), size],
+                                 'n': rng.choice((0, 1, size, size + 1,
+                                                  size // 2, 1 << 20))})
+            c.update({'subs': subs,
+                      'engine': rng.choice(('greenlet', 'thread')),
+                      'sched_seed': rng.randrange(1 << 30)})
+            return c
         if fn == 'checksum':
             ch = rng.choice(CHUNKS + (None,))
             base = ch or 65536
@@ -342,6 +374,96 @@ class C20(Check):
                                     'r' if size else 'empty'),
                 ch if ch in CHUNKS else '>size', case['alg'],
                 bool(case.get('short')), fired, bool(case.get('real'))]
+
+    # several callers at once --------------------------------------------
+    def _x_concurrent(self, case, work, rec, log):
+        """2-3 compute_file_checksum / last_bytes calls in flight at the same
+        time; every read on a simulated file is a switch point (real reads
+        release the GIL, greenthreads switch on I/O)."""
+        import random
+        fu = self.fu
+        subs = case['subs']
+        files = {}
+        results = {}
+        yielders = {}
+
+        class YieldingFile(SimFile):
+            def __init__(self_, tid, *a, **k):
+                super().__init__(*a, **k)
+                self_.tid = tid
+
+            def read(self_, size=-1):
+                d = super().read(size)
+                y = yielders.get(self_.tid)
+                if y:
+                    y()
+                return d
+
+            def readinto(self_, b):
+                d = SimFile.read(self_, len(b))
+                b[:len(d)] = d
+                y = yielders.get(self_.tid)
+                if y:
+                    y()        # pre-empted right after the I/O completed
+                return len(d)
+        paths = {}
+        for i, sub in enumerate(subs):
+            pth = os.path.join(work, 'c%d.bin' % i)
+            paths[pth] = i
+            with open(pth, 'wb') as f:
+                f.write(content_of(sub['content']))
+
+        def sim_open(p, mode='r', *a, **k):
+            i = paths.get(p)
+            if i is None or 'b' not in mode:
+                raise core.HarnessError('unexpected open(%r, %r)' % (p, mode))
+            sf = YieldingFile(i, content_of(subs[i]['content']),
+                              short=subs[i].get('short'), cyclic=True)
+            files[i] = sf
+            return sf
+        fu.open = sim_open
+
+        def body(i, sub):
+            def run(yield_fn):
+                yielders[i] = yield_fn
+                pth = os.path.join(work, 'c%d.bin' % i)
+                try:
+                    if sub['fn'] == 'checksum':
+                        results[i] = ('ok', fu.compute_file_checksum(
+                            pth, read_chunksize=sub['chunk'],
+                            algorithm=sub['alg']))
+                    else:
+                        results[i] = ('ok', fu.last_bytes(pth, sub['n']))
+                except Exception as e:
+                    results[i] = ('exc', type(e).__name__)
+            return run
+        trace = []
+        tasks.run_tasks(case['engine'],
+                        [body(i, sub) for i, sub in enumerate(subs)],
+                        random.Random(case['sched_seed']), trace)
+        switches = sum(1 for a, b in zip(trace, trace[1:]) if a != b)
+        if switches:
+            self.bump('faults', 'task_switch_at_io', switches)
+        for i, sub in enumerate(subs):
+            data = content_of(sub['content'])
+            got = results.get(i)
+            if sub['fn'] == 'checksum':
+                want = ('ok', hashlib.new(sub['alg'], data).hexdigest())
+                if got != want:
+                    self.viol('checksum_mismatch', alg=sub['alg'],
+                              chunk=sub['chunk'], size=len(data),
+                              concurrent=True, got=list(got or ()))
+            else:
+                take = min(sub['n'], len(data))
+                want = ('ok', (data[len(data) - take:] if take else b'',
+                               len(data) - take))
+                if got is None or got[0] != 'ok' or tuple(got[1]) != want[1]:
+                    self.viol('last_bytes_wrong', n=sub['n'], size=len(data),
+                              concurrent=True)
+        log.add('concurrent', case['engine'], len(trace),
+                sorted((i, r[0]) for i, r in results.items()))
+        return ['concurrent', len(subs), case['engine'],
+                sorted(s_['fn'] for s_ in subs)]
 
     # last_bytes -----------------------------------------------------------
     def _x_last_bytes(self, case, work, rec, log):
